@@ -91,6 +91,26 @@ pub fn run(args: &Args) -> Report {
         ] {
             texts.push((wrap(body), "scenario"));
         }
+        // a deletable (empty, unused) FUNCTION / GROUP that several parents list: every parent has to be unlinked
+        for variant in 0..(if args.thorough { 24 } else { 8 }) {
+            let nparents = 2 + variant % 3;
+            let mut fs: Vec<String> = vec!["/begin FUNCTION shared \"\" /end FUNCTION".to_string()];
+            let mut gs: Vec<String> = vec!["/begin GROUP gshared \"\" /end GROUP".to_string()];
+            for p in 0..nparents {
+                let used = (variant + p) % 2 == 0;
+                fs.push(format!("/begin FUNCTION par{p} \"\" {} /begin SUB_FUNCTION shared /end SUB_FUNCTION /end FUNCTION", if used { "/begin OUT_MEASUREMENT me /end OUT_MEASUREMENT" } else { "" }));
+                gs.push(format!("/begin GROUP gpar{p} \"\" ROOT {} /begin SUB_GROUP gshared /end SUB_GROUP /end GROUP", if used { "/begin REF_MEASUREMENT me /end REF_MEASUREMENT" } else { "" }));
+            }
+            for v in [&mut fs, &mut gs] {
+                for i in (1..v.len()).rev() {
+                    let j = rng.below(i + 1);
+                    v.swap(i, j);
+                }
+            }
+            texts.push((wrap(&format!("/begin MEASUREMENT me \"\" UBYTE NO_COMPU_METHOD 0 0 0 1 /end MEASUREMENT {} {}", fs.join(" "), gs.join(" "))), "chain"));
+        }
+        // INSTANCE with several OVERWRITE blocks, the conversion only in a later one
+        texts.push((wrap("/begin TYPEDEF_MEASUREMENT tm \"\" UBYTE NO_COMPU_METHOD 0 0 0 1 /end TYPEDEF_MEASUREMENT /begin INSTANCE i \"\" tm 0 /begin OVERWRITE a 0 /end OVERWRITE /begin OVERWRITE b 0 CONVERSION cm /end OVERWRITE /begin OVERWRITE c 0 /end OVERWRITE /end INSTANCE /begin COMPU_METHOD cm \"\" IDENTICAL \"%1\" \"\" /end COMPU_METHOD"), "scenario"));
         // chains of helpers in every definition order: UNIT -> REF_UNIT chains (used from a COMPU_METHOD or not),
         // GROUP / FUNCTION hierarchies whose only content sits at the far end (or nowhere)
         for len in 2..=5usize {
